@@ -1,0 +1,11 @@
+//go:build verif
+
+package cdcn
+
+import (
+	vh "github.com/craterdog/go-collection-framework/v4/verifhook"
+)
+
+func verifSpawn() { vh.Yield(vh.Spawn, nil) }
+func verifEnter() { vh.Yield(vh.Enter, nil) }
+func verifExit()  { vh.Yield(vh.Exit, nil) }
